@@ -54,6 +54,19 @@ class AnalysisError(Exception):
     """The analysis cannot stand (anchor vanished, construct outside fragment)."""
 
 
+class Missing(AnalysisError):
+    """the function a rule is anchored in is there, but the statement the
+    obligation is about is not (deleted, or made unrecognisable): that is a
+    failed obligation, not a failed analysis.  `core.run_rule` turns it into
+    a finding of the given rule."""
+
+    def __init__(self, rule, func, construct, message):
+        super().__init__(f'{rule}: {message}')
+        self.rule, self.func, self.construct, self.message = \
+            rule, func, construct, message
+
+
+
 class Func:
     def __init__(self, name, cls, module, node, kind):
         self.name = name
